@@ -2,7 +2,8 @@
 
 Usage:  python c15_driver.py < config.json > result.json        (PYTHONPATH must point at the twisted tree)
 
-config = {"reactor": "select|poll|epoll|asyncio", "scenarios": [scenario, ...], "timeout_ms": int}
+config = {"reactor": "select|poll|epoll|asyncio", "scenarios": [scenario, ...], "timeout_ms": int, "idle_ms": int}
+         (a connection is given up when it made no progress -- no event at all -- for idle_ms, or after timeout_ms)
 scenario = {"closer": 1|2, "kind": "lose"|"half"|"abort", "hc": [bool, bool],
             "sndbuf": int (0 = default), "rcvbuf": int,
             "ops": [ops of side 1, ops of side 2],        op = ["w", n] | ["ws", [n, ...]] | ["d", ms]
@@ -35,13 +36,14 @@ BAD = 1 << 30
 _streams = {}
 
 
+def build_stream(side, nbytes):
+    n = min(MAXSTREAM, nbytes + 4096) // 4 + 1
+    salt = SALT[side]
+    _streams[side] = struct.pack(">%dI" % n, *[k ^ salt for k in range(n)])
+
+
 def stream(side):
-    s = _streams.get(side)
-    if s is None:
-        n = MAXSTREAM // 4
-        salt = SALT[side]
-        s = _streams[side] = struct.pack(">%dI" % n, *[k ^ salt for k in range(n)])
-    return s
+    return _streams[side]
 
 
 def decode(side_from, chunk, hint):
@@ -92,15 +94,27 @@ def main():
     from zope.interface import implementer
 
     results = []
-    timeout = cfg.get("timeout_ms", 120000) / 1000.0
+    timeout = cfg.get("timeout_ms", 600000) / 1000.0
+    idle = cfg.get("idle_ms", 60000) / 1000.0
+
+    def tot(ops):
+        return sum(op[1] if op[0] == "w" else sum(op[1]) if op[0] == "ws" else 0 for op in ops)
+    for side in (1, 2):      # streams are built before any connection exists (not on a scenario's clock)
+        build_stream(side, max([tot(sc["ops"][side - 1]) for sc in cfg["scenarios"]] + [0]))
 
     def run_scenario(idx):
         if idx >= len(cfg["scenarios"]):
             reactor.stop()
             return
         sc = cfg["scenarios"][idx]
-        ev = []
-        state = {"done": False, "port": None, "timer": None, "conn": None}
+
+        class Log(list):
+            def append(self, e):
+                if not state["done"]:          # nothing is recorded once the observation has ended
+                    list.append(self, e)
+                    state["progress"] += 1
+        ev = Log()
+        state = {"done": False, "port": None, "timer": None, "idle": None, "progress": 0, "seen": -1}
         sides = {}
         total = {s: sum(op[1] if op[0] == "w" else sum(op[1]) if op[0] == "ws" else 0 for op in sc["ops"][s - 1]) for s in (1, 2)}
 
@@ -246,12 +260,13 @@ def main():
         def finish(timed_out):
             if state["done"]:
                 return
-            state["done"] = True
-            if state["timer"] is not None and state["timer"].active():
-                state["timer"].cancel()
+            for k in ("timer", "idle"):
+                if state[k] is not None and state[k].active():
+                    state[k].cancel()
             if not timed_out:
                 ev.append({"e": "end"})
-            results.append({"ev": ev, "timed_out": bool(timed_out)})
+            state["done"] = True
+            results.append({"ev": list(ev), "timed_out": bool(timed_out)})
             d = state["port"].stopListening()
             for s in sides.values():          # only after a timeout: do not leave sockets behind
                 if not s.lostn:
@@ -273,6 +288,16 @@ def main():
         state["port"] = reactor.listenTCP(0, sf, interface="127.0.0.1")
         reactor.connectTCP("127.0.0.1", state["port"].getHost().port, cf)
         state["timer"] = reactor.callLater(timeout, finish, True)
+
+        def watchdog():
+            if state["done"]:
+                return
+            if state["progress"] == state["seen"]:
+                finish(True)
+                return
+            state["seen"] = state["progress"]
+            state["idle"] = reactor.callLater(idle, watchdog)
+        state["idle"] = reactor.callLater(idle, watchdog)
 
     reactor.callWhenRunning(run_scenario, 0)
     reactor.run()
